@@ -78,7 +78,7 @@ PROPS["C10"] = dict(
 )
 
 PROPS["C13"] = dict(
-    engine="lazy", level="exploration", quick=1500, thorough=60000,
+    engine="lazy", level="exploration", quick=1000, thorough=60000,
     rule=("one evaluation = one seeded large image (virtual size GiB..tens of TiB, host offsets beyond 2^32 bytes / 2^32 sectors) "
           "opened and read at extreme offsets twice: once sparse, once with hundreds to thousands of additional allocation units "
           "outside the requested ranges. Oracles: byte ledger of the storage fake within K*(request + 2*buffer) + K*mapping-metadata "
@@ -123,7 +123,7 @@ PROPS["C09"] = dict(
 )
 
 _FAULT_RULE = ("one evaluation = one (base input, fault) pair from an enumerated plan. Base inputs: one stub image per format/feature kind "
-               "(quick; six per kind in thorough), a chain of every kind, a multi-extent descriptor world, and the repo's real fixtures "
+               "(quick; three per kind in thorough), a chain of every kind, a multi-extent descriptor world, and the repo's real fixtures "
                "(disks, Hyper-V, envelope, keystore, vmtar, encrypted VMX). distinct = (base, fault kind, field/fault name, outcome class) "
                "tuples; every evaluation is non-trivial (it carries a fault, except one fault-free control per base).")
 PROPS["C11"] = dict(
@@ -155,7 +155,7 @@ PROPS["C19"] = dict(
           "4 entry points (OVF, VBox, PVS, DiskDescriptor via HDD(path) on the simulated namespace) x {internal entities nested 1..12 deep, "
           "quadratic blow-up, external general entities (simulated file, real file, http), external parameter entities, external "
           "DTD subset with/without entities, declared-but-unused (general, parameter) entities} x {element, attribute} plus four control "
-          "documents; thorough adds 12 seeded textual variants each. distinct = (entry, family, parameter, position, outcome) tuples; "
+          "documents; 4 (quick) / 16 (thorough) textual variants each (prolog comments/PIs with tag-like text, junk before the XML declaration), per document flavour. distinct = (entry, family, parameter, position, outcome) tuples; "
           "non-trivial = the document declares an entity."),
     expected_probes=["xml.entry_" + e for e in ("ovf", "vbox", "pvs", "hdd")] + ["xml.outcome_refused", "xml.outcome_parsed"],
     assumptions=["'refused' = the constructor raises any Exception", "network and file access are observed through sys.addaudithook and the simulated namespace's open log"],
@@ -203,11 +203,11 @@ PROPS["C17"] = dict(
           "reader at the end and at every crash point (history cut between any two device writes): pre-commit cuts must decode to "
           "the old tree, post-commit cuts to the new one. distinct = (cut class, number of key tables, tree depth, value types) "
           "tuples; non-trivial = the expected tree is not empty."),
-    expected_probes=["store.file_objects", "store.two_versions_of_a_table_registered", "store.stale_header_slot_invalid", "store.cuts_all",
+    expected_probes=["store.file_objects", "store.additional_object_table", "store.two_versions_of_a_table_registered", "store.stale_header_slot_invalid", "store.cuts_all",
                      "store.tables_1", "store.tables_4", "store.type_int", "store.type_float", "store.type_str", "store.type_bytes", "store.type_bool"],
     assumptions=["no public specification: the stub follows the structures the reader cites and is anchored on the two fixtures (evidence 'anchors'); "
                  "independence of oracle and reader is weakest here", "checksums are written as zero (the reader does not verify them)",
-                 "additional object tables and replay-log entries are not generated"],
+                 "replay-log entries are not generated (a clean store has none)"],
     stubs=["store writer peer (device-write log with crash cuts)", "storage (SimFile/SimHandle)"],
 )
 
